@@ -10,6 +10,7 @@ def configs(tier):
         ('2 documents: root children/attributes/text, plain+prefixed+keyword names', dict(family='root_level', fam_kw=dict(docs=2, slots=2, attrs=1, text=True, leaf_form=False, root_form=False, names=['b', 'ns:c'], anames=['a', 'h:c', 'xmlns:h']))),
         ('3 occurrences x 2 children, case variants + hyphen', dict(family='one_level', fam_kw=dict(occ=3, slots=2, attrs=0, text=False, leaf_form=False, p_form=False, **CASES))),
         ('2 occurrences x 1 child + 1 attribute + text, non-ASCII + keyword', dict(family='one_level', fam_kw=dict(occ=2, slots=1, attrs=1, text=True, leaf_form=True, p_form=True, **NONASCII))),
+        ('nested with element forms: 2 occurrences x 1 child x 1 grandchild', dict(family='one_level', fam_kw=dict(occ=2, slots=1, gslots=1, attrs=0, text=False, leaf_form=True, p_form=True, names=['b', 'ns:c'], gpool=2))),
         ('nested: 2 occurrences x 2 children x 1 grandchild (String typing of leaves)', dict(family='one_level', fam_kw=dict(occ=2, slots=2, gslots=1, attrs=0, text=True, leaf_form=False, p_form=False, names=['b', 'ns:c'], gpool=2))),
     ]
     if tier == 'quick': return q
